@@ -292,3 +292,202 @@ Fixpoint run (n : nat) (sh : shape) (idx : list N) (depth : nat) : list (list N 
   end end.
 Eval vm_compute in run 10 S4 (zeros 3) 4.
 Eval vm_compute in run 10 S4 (zeros 1) 2.
+
+
+(* ====================================================================== *)
+(* enum = DFS enumeration with cut-off; it is the succ-chain from [first]  *)
+(* ====================================================================== *)
+Definition nchildren (sh : shape) : nat :=
+  match sh with Leaf => 0 | Het cs => length cs | Hom n _ => N.to_nat n end.
+
+Lemma child_lt sh k : k < nchildren sh -> exists c, child sh (N.of_nat k) = Some c.
+Proof.
+  destruct sh as [|cs|n c]; simpl; intros H; [lia| |].
+  - rewrite Nat2N.id. destruct (nth_error cs k) eqn:E; [eauto|].
+    apply nth_error_None in E. lia.
+  - exists c. destruct (N.ltb_spec (N.of_nat k) n); [reflexivity|lia].
+Qed.
+
+Lemma child_ge sh k : nchildren sh <= k -> child sh (N.of_nat k) = None.
+Proof.
+  destruct sh as [|cs|n c]; simpl; intros H; [reflexivity| |].
+  - rewrite Nat2N.id. apply nth_error_None. lia.
+  - destruct (N.ltb_spec (N.of_nat k) n); [lia|reflexivity].
+Qed.
+
+Definition block (enumD : shape -> list (list N)) (sh : shape) (k : nat) : list (list N) :=
+  match child sh (N.of_nat k) with
+  | Some c => map (cons (N.of_nat k)) (enumD c)
+  | None => []
+  end.
+
+Fixpoint enum (D : nat) (sh : shape) : list (list N) :=
+  match D with
+  | O => [[]]
+  | S D' => if is_leaf sh then [[]]
+            else flat_map (block (enum D') sh) (seq 0 (nchildren sh))
+  end.
+
+(* consecutive elements are linked by f, the last one maps to e *)
+Fixpoint chain_to {A} (f : A -> option A) (l : list A) (e : option A) : Prop :=
+  match l with
+  | [] => False
+  | a :: t => match t with
+              | [] => f a = e
+              | b :: _ => f a = Some b /\ chain_to f t e
+              end
+  end.
+
+Lemma chain_to_app {A} (f : A -> option A) l1 : forall l2 b e,
+  chain_to f l1 (Some b) -> hd_error l2 = Some b -> chain_to f l2 e -> chain_to f (l1 ++ l2) e.
+Proof.
+  induction l1 as [|a t IH]; intros l2 b e H1 Hh H2; [destruct H1|].
+  destruct t as [|a' t'].
+  - simpl in H1. destruct l2 as [|x l2']; [discriminate|]. simpl in Hh. injection Hh as ->.
+    simpl. split; assumption.
+  - destruct H1 as [Ha Ht]. change ((a :: a' :: t') ++ l2) with (a :: (a' :: t') ++ l2).
+    simpl. split; [exact Ha|]. apply (IH l2 b e Ht Hh H2).
+Qed.
+
+Lemma chain_to_map {A B} (f : A -> option A) (g : B -> option B) (h : A -> B) l : forall e e',
+  (forall a b, f a = Some b -> g (h a) = Some (h b)) ->
+  (forall a, f a = e -> In a l -> g (h a) = e') ->
+  chain_to f l e -> chain_to g (map h l) e'.
+Proof.
+  induction l as [|a t IH]; intros e e' Hs He H; [destruct H|].
+  destruct t as [|b t'].
+  - simpl in *. apply He; [assumption|left; reflexivity].
+  - destruct H as [Ha Ht]. simpl. split; [apply Hs; assumption|].
+    apply (IH e e' Hs); [|exact Ht]. intros x Hx Hin. apply He; [assumption|right; assumption].
+Qed.
+
+Lemma enum_nonempty D sh : enum D sh <> [] -> True. Proof. trivial. Qed.
+
+Lemma succ_cons_some D sh i c q q' :
+  child sh i = Some c -> succ D c q = Some q' -> succ (S D) sh (i :: q) = Some (i :: q').
+Proof. intros Hc Hs. simpl. rewrite Hc, Hs. reflexivity. Qed.
+
+Lemma succ_cons_none D sh i c q :
+  child sh i = Some c -> succ D c q = None ->
+  succ (S D) sh (i :: q) =
+  match child sh (N.succ i) with Some c' => Some (N.succ i :: first D c') | None => None end.
+Proof. intros Hc Hs. simpl. rewrite Hc, Hs. reflexivity. Qed.
+
+Theorem enum_chain : forall D sh, wf sh ->
+  hd_error (enum D sh) = Some (first D sh) /\ chain_to (succ D sh) (enum D sh) None.
+Proof.
+  induction D as [|D IH]; intros sh Hw.
+  - simpl. split; reflexivity.
+  - cbn [enum first]. destruct (is_leaf sh) eqn:Hl.
+    + rewrite (child_leaf _ _ Hl). simpl. split; reflexivity.
+    + destruct (wf_child0 _ Hw Hl) as [c0 Hc0]. rewrite Hc0.
+      (* number of children is positive *)
+      assert (Hn : 0 < nchildren sh).
+      { destruct (Nat.eq_dec (nchildren sh) 0) as [E|]; [|lia].
+        pose proof (child_ge sh 0 ltac:(lia)) as H0. simpl in H0. congruence. }
+      (* generalised statement over the suffix of blocks starting at k *)
+      assert (G : forall m k, k + m = nchildren sh -> 0 < m ->
+        exists ck, child sh (N.of_nat k) = Some ck /\
+        hd_error (flat_map (block (enum D) sh) (seq k m)) = Some (N.of_nat k :: first D ck) /\
+        chain_to (succ (S D) sh) (flat_map (block (enum D) sh) (seq k m)) None).
+      { induction m as [|m IHm]; intros k Hk Hm; [lia|].
+        destruct (child_lt sh k ltac:(lia)) as [ck Hck]. exists ck. split; [exact Hck|].
+        destruct (IH ck (wf_child _ _ _ Hw Hck)) as [Hhd Hch].
+        cbn [seq flat_map].
+        assert (Hb : block (enum D) sh k = map (cons (N.of_nat k)) (enum D ck))
+          by (unfold block; rewrite Hck; reflexivity).
+        rewrite !Hb.
+        assert (Hne : exists a t, enum D ck = a :: t).
+        { destruct (enum D ck) as [|a t]; [discriminate|eauto]. }
+        destruct Hne as [a [t Hat]].
+        split.
+        { rewrite Hat in *. simpl in *. injection Hhd as ->. reflexivity. }
+        destruct (Nat.eq_dec m 0) as [->|Hm0].
+        - (* last block *)
+          simpl. rewrite app_nil_r.
+          apply (chain_to_map (succ D ck) (succ (S D) sh) (cons (N.of_nat k)) _ None None).
+          + intros x y Hxy. apply (succ_cons_some D sh _ ck); assumption.
+          + intros x Hx _. rewrite (succ_cons_none D sh _ ck) by assumption.
+            replace (N.succ (N.of_nat k)) with (N.of_nat (S k)) by lia.
+            rewrite (child_ge sh (S k)) by lia. reflexivity.
+          + exact Hch.
+        - destruct (IHm (S k) ltac:(lia) ltac:(lia)) as [ck' [Hck' [Hhd' Hch']]].
+          eapply chain_to_app; [|exact Hhd'|exact Hch'].
+          apply (chain_to_map (succ D ck) (succ (S D) sh) (cons (N.of_nat k)) _ None _).
+          + intros x y Hxy. apply (succ_cons_some D sh _ ck); assumption.
+          + intros x Hx _. rewrite (succ_cons_none D sh _ ck) by assumption.
+            replace (N.succ (N.of_nat k)) with (N.of_nat (S k)) by lia.
+            rewrite Hck'. reflexivity.
+          + exact Hch. }
+      destruct (G (nchildren sh) 0 ltac:(lia) Hn) as [ck [Hck [Hhd Hch]]].
+      simpl in Hck. rewrite Hc0 in Hck. injection Hck as <-.
+      split; assumption.
+Qed.
+
+Print Assumptions enum_chain.
+Eval vm_compute in enum 3 S4.
+Eval vm_compute in enum 1 S4.
+
+(* ====================================================================== *)
+(* Gluing: repeatedly calling next from the default state yields enum      *)
+(* ====================================================================== *)
+Lemma maximal_first : forall D sh, wf sh -> maximal D sh (first D sh).
+Proof.
+  induction D as [|D IH]; intros sh Hw; simpl; [right; reflexivity|].
+  destruct (child sh 0%N) as [c|] eqn:Hc.
+  - simpl. rewrite Hc. apply IH. eapply wf_child; eauto.
+  - simpl. destruct (is_leaf sh) eqn:Hl; [left; reflexivity|].
+    destruct (wf_child0 _ Hw Hl) as [c Hc']. congruence.
+Qed.
+
+Lemma succ_maximal : forall q D sh q', wf sh -> maximal D sh q -> succ D sh q = Some q' -> maximal D sh q'.
+Proof.
+  induction q as [|i q IH]; intros D sh q' Hw Hm Hs; [discriminate|].
+  destruct D as [|D]; cbn [maximal] in Hm; [exfalso; exact Hm|].
+  cbn [succ] in Hs. destruct (child sh i) as [c|] eqn:Hc; [|discriminate].
+  destruct (succ D c q) as [q1|] eqn:Hs1.
+  - injection Hs as <-. cbn [maximal]. rewrite Hc. eapply IH; eauto. eapply wf_child; eauto.
+  - destruct (child sh (N.succ i)) as [c'|] eqn:Hc'; [|discriminate].
+    injection Hs as <-. cbn [maximal]. rewrite Hc'. apply maximal_first. eapply wf_child; eauto.
+Qed.
+
+Definition item (D : nat) (sh : shape) (q : list N) := (pad D q, length q, nodeleaf sh q).
+
+Fixpoint collect (n : nat) (sh : shape) (D : nat) (idx : list N) (depth : nat)
+  : list (list N * nat * bool) :=
+  match n with O => [] | S n' =>
+  match loop (D + 2) sh idx depth with
+  | Item idx' d lf => (idx', d, lf) :: collect n' sh D idx' d
+  | _ => []
+  end end.
+
+Lemma collect_chain D sh : wf sh -> forall l q n,
+  maximal D sh q -> chain_to (succ D sh) (q :: l) None -> length l < n ->
+  collect n sh D (pad D q) (length q) = map (item D sh) l.
+Proof.
+  intros Hw. induction l as [|b l IH]; intros q n Hm Hc Hn.
+  - simpl in Hc. destruct n; [simpl in Hn; lia|]. cbn [collect].
+    rewrite (next_is_succ D sh q (D + 2) Hw Hm) by (pose proof (maximal_len _ _ _ Hm); lia).
+    rewrite Hc. reflexivity.
+  - destruct Hc as [Hs Hc]. destruct n; [simpl in Hn; lia|]. cbn [collect].
+    rewrite (next_is_succ D sh q (D + 2) Hw Hm) by (pose proof (maximal_len _ _ _ Hm); lia).
+    rewrite Hs. cbn [map]. unfold item at 1. f_equal.
+    apply IH; [eapply succ_maximal; eauto|exact Hc|simpl in Hn; lia].
+Qed.
+
+Theorem iter_complete D sh : wf sh ->
+  collect (S (length (enum D sh))) sh D (zeros D) (D + 1) = map (item D sh) (enum D sh).
+Proof.
+  intros Hw. destruct (enum_chain D sh Hw) as [Hhd Hch].
+  destruct (enum D sh) as [|q0 l] eqn:E; [discriminate|].
+  simpl in Hhd. injection Hhd as ->.
+  cbn [collect]. rewrite (first_item D sh (D + 2) Hw) by lia.
+  cbn [map]. f_equal.
+  - unfold item. rewrite pad_first. unfold nodeleaf. rewrite descend_first. reflexivity.
+  - rewrite <- (pad_first D sh).
+    apply collect_chain; [exact Hw|apply maximal_first; exact Hw|exact Hch|simpl; lia].
+Qed.
+
+(* and after the last item the iterator is exhausted for good *)
+Print Assumptions iter_complete.
+Eval vm_compute in collect 10 S4 3 (zeros 3) 4.
